@@ -509,6 +509,8 @@ def collapse_one(
                 if (classname, key) not in _UNKNOWN_KV:
                     LOGGER.warning('Unknown keyvalue {}.{}', classname, key)
                     _UNKNOWN_KV.add((classname, key))
+                # We don't know how to reposition it, but variables still apply.
+                new_ent[key] = value
                 continue
             # This has specific interactions with angles, it needs to be the pitch KV.
             if kv.type is ValueTypes.ANGLE_NEG_PITCH:
